@@ -11,7 +11,8 @@ RULE = ("every 2-input <=2-gate circuit and seeded random lint-clean acyclic bla
         "startpoints in the cone (constants, functionally constant nodes, outputs that are inputs) x every node n with "
         "a startpoint in its cone x endpoint choices {default, one output, random subset}; every input valuation is "
         "simulated with n (or a startpoint) inverted by an independent evaluator; non-trivial = n is a gate with >=2 "
-        "startpoints in its cone")
+        "startpoints in its cone"
+        "; plus: influence of a two-node list against the single-node calls, template-derived names (a name-clash ValueError on such a circuit is a stated rejection), shuffled node order")
 BOUND = "circuits <= 10 nodes, <= 5 startpoints; all valuations; 4/16 hash seeds"
 
 
